@@ -71,3 +71,10 @@ _t("C18",
    "sent one and equal after draining, producers never block, the worker ends after Stop. Schedules are sampled, not enumerated.",
    "Trusted: testing/synctest's notion of durably blocked; one producer at a time.",
    "property-based testing with harness-owned scheduling (synctest)", "DESIGN.md §3 C18")
+
+_t("C15",
+   "Generated chain evolutions (extensions, reorgs up to depth 8, stale/repeated notifications, evolution while the wallet is stopped) are fed to a complete wallet through a "
+   "model backend; after every quiesced step tip, per-height hashes, block membership of confirmed transactions and balances are compared with the backend model and an "
+   "independent coin ledger, again after reopening.",
+   "Trusted: internal/simchain as a faithful (ideal) chain.Interface backend; the sentinel-based quiescence argument (sequential notification loop).",
+   "property-based testing: rapid generated chain histories against a backend model, invariant + ledger oracle", "DESIGN.md §3 C15")
